@@ -890,6 +890,14 @@ def features(ast):
                 _names_used(f, used)
             if used & set(n["ps"]):
                 fs.add("forin-var-captured")
+        if n["k"] == "repeat" and n["a"][1]["k"] == "name":
+            body, cond = n["a"]
+            declared = set(x for st_ in body["a"] if st_["k"] == "local" for x in st_["ps"])
+            used = set()
+            for f in _funcs(body, []):
+                _names_used(f, used)
+            if cond["s"] in declared and cond["s"] in used:
+                fs.add("repeat-until-captured-local")
         for c in n["a"]:
             walk(c)
 
@@ -1113,6 +1121,118 @@ def fam_metaindex():
 
 
 
+
+
+def _guard():
+    """a finite iteration guard: the specification never reaches it; an implementation whose loop fails to stop shows
+    a wrong event trace instead of hanging"""
+    return [Assign([V("guard")], [ADD(V("guard"), Int(1))]), If(Bin(">", V("guard"), Int(10)), [Emit(Str("runaway")), Break()])]
+
+
+def fam_loop_conditions():
+    """(a2) the condition of repeat-until / while over a variable assigned in the body: bare variable / expression over
+    it / outer variable x captured by a closure created in the body (reading, writing) or not x closure created
+    before / after the assignment x boolean or other value x chunk level / inside a function x extra live locals"""
+    out = []
+    S = Str
+    caps = [("none", "after"), ("read", "after"), ("read", "before"), ("write", "after"), ("write", "before")]
+
+    def closure(var, cap):
+        if cap == "read":
+            return Func([], [Return(V(var))])
+        return Func(["v"], [Local(["o"], [V(var)]), Assign([V(var)], [V("v")]), Return(V("o"))])
+
+    def finish(pre, loop, place, cap):
+        call = (lambda f: Call(f)) if cap != "write" else (lambda f: Call(f, S("w")))
+        tail = [Emit(S("after"), V("n"), V("guard")),
+                ForNum("i", Int(1), LenOp(V("fs")), None, [Emit(call(Index(V("fs"), V("i"))))]),
+                ForNum("i", Int(1), LenOp(V("fs")), None, [Emit(call(Index(V("fs"), V("i"))))])]
+        body = pre + [loop] + tail
+        if place == "function":
+            return Block([LocalFunc("run", [], body + [Return(V("n"))]), Emit(Call(V("run")))])
+        return Block(body)
+
+    rep_conds = [("bare", "bool"), ("bare", "value"), ("not", "bool"), ("not", "value"), ("outer-bare", "bool"), ("outer-bare", "value"),
+                 ("expr-eq", "bool"), ("expr-cmp", "bool"), ("outer-expr", "bool")]
+    for (cond, vk), (cap, order), place, pad in itertools.product(rep_conds, caps, ["chunk", "function"], [0, 2]):
+        pre = [Local(["fs"], [Table()]), Local(["n", "guard"], [Int(0), Int(0)])]
+        if pad:
+            pre.append(Local(["p1", "p2"], [Int(1), Int(2)]))
+        inc = Assign([V("n")], [ADD(V("n"), Int(1))])
+        body = _guard()
+        ge3 = lambda: Bin(">=", V("n"), Int(3))
+        lt3 = lambda: Bin("<", V("n"), Int(3))
+        if cond in ("bare", "expr-eq"):
+            var, val, local_ = "done", (ge3() if vk == "bool" else Or(And(ge3(), S("yes")), Nil())), True
+            c = V("done") if cond == "bare" else EQ(V("done"), TRUE())
+        elif cond == "not":
+            var, val, local_ = "more", (lt3() if vk == "bool" else Or(And(lt3(), S("more")), Nil())), True
+            c = Not(V("more"))
+        elif cond == "expr-cmp":
+            var, val, local_ = "x", V("n"), True
+            c = Bin(">=", V("x"), Int(3))
+        elif cond == "outer-bare":
+            pre.append(Local(["stop"]))
+            var, val, local_ = "stop", (ge3() if vk == "bool" else Or(And(ge3(), S("yes")), Nil())), False
+            c = V("stop")
+        else:
+            var, val, local_ = "n", None, False
+            c = ge3()
+        if val is not None:
+            body.append(inc)
+        if pad:
+            body.append(Local(["q1", "q2"], [V("n"), ADD(V("n"), Int(1))]))
+        assign = (Local([var], [val]) if local_ else Assign([V(var)], [val])) if val is not None else inc
+        store = [PUSH("fs", closure(var, cap))] if cap != "none" else []
+        if order == "after":
+            body += [assign] + store
+        elif local_:
+            body += [Local([var])] + store + [Assign([V(var)], [val])]
+        else:
+            body += store + [assign]
+        body.append(Emit(S("it"), V("n"), V(var)))
+        if pad:
+            body.append(Emit(V("q1"), V("q2"), V("p1"), V("p2")))
+        out.append(("loop-cond", finish(pre, Repeat(body, c), place, cap)))
+
+    wh_conds = [("bare", "bool"), ("bare", "value"), ("not", "bool"), ("not", "value"), ("expr-eq", "bool"), ("expr-cmp", "bool"), ("shadowed", "bool")]
+    for (cond, vk), (cap, order), place, pad in itertools.product(wh_conds, caps, ["chunk", "function"], [0, 2]):
+        pre = [Local(["fs"], [Table()]), Local(["n", "guard"], [Int(0), Int(0)])]
+        if pad:
+            pre.append(Local(["p1", "p2"], [Int(1), Int(2)]))
+        inc = Assign([V("n")], [ADD(V("n"), Int(1))])
+        lt3 = lambda: Bin("<", V("n"), Int(3))
+        ge3 = lambda: Bin(">=", V("n"), Int(3))
+        body = _guard()
+        if cond in ("bare", "expr-eq", "shadowed"):
+            pre.append(Local(["go"], [TRUE()]))
+            var, val = "go", (lt3() if vk == "bool" else Or(And(lt3(), S("go")), Nil()))
+            c = EQ(V("go"), TRUE()) if cond == "expr-eq" else V("go")
+        elif cond == "not":
+            pre.append(Local(["stop"]))
+            var, val = "stop", (ge3() if vk == "bool" else Or(And(ge3(), S("yes")), Nil()))
+            c = Not(V("stop"))
+        else:
+            var, val = "n", None
+            c = lt3()
+        if val is not None:
+            body.append(inc)
+        if pad:
+            body.append(Local(["q1", "q2"], [V("n"), ADD(V("n"), Int(1))]))
+        store = [PUSH("fs", closure(var, cap))] if cap != "none" else []
+        if cond == "shadowed":
+            # the outer variable is assigned, then shadowed by a body local of the same name which the closure captures
+            body.append(Assign([V("go")], [val]))
+            inner = Bin("..", S("inner"), V("n"))
+            body += ([Local(["go"], [inner])] + store) if order == "after" else ([Local(["go"])] + store + [Assign([V("go")], [inner])])
+        else:
+            assign = Assign([V(var)], [val]) if val is not None else inc
+            body += ([assign] + store) if order == "after" else (store + [assign])
+        body.append(Emit(S("it"), V("n"), V(var)))
+        if pad:
+            body.append(Emit(V("q1"), V("q2"), V("p1"), V("p2")))
+        out.append(("loop-cond", finish(pre, While(c, body), place, cap)))
+    return out
 
 
 def fam_fornum():
@@ -1704,12 +1824,39 @@ class RandGen:
             w = "w%d" % self.counter
             n = r.randrange(1, 4)
             pre = [Local([w], [Int(0)])]
-            inner = self.block(depth + 1)
             inc = Assign([V(w)], [ADD(V(w), Int(1))])
+            # the specification never reaches the guard; a loop that fails to stop shows as a wrong trace, not a hang
+            guard = [If(Bin(">", V(w), Int(12)), [Emit(Str("runaway")), Break()])]
+            flag = r.random() < 0.4
+            d = "d%d" % self.counter
+            store = []
+            if flag and r.random() < 0.6:
+                fl = self.visible("fnlist")
+                clos = Func([], [Return(V(d))])
+                store = [PUSH(r.choice(fl), clos)] if fl else [Local(["c" + d], [clos])]
+            before = r.random() < 0.4
             if kind == "while":
-                st = While(Bin("<", V(w), Int(n)), [inc] + inner + ([Label(lab)] if lab else []))
+                if flag:
+                    # the condition is a bare outer variable assigned in the body (possibly captured by a closure)
+                    pre.append(Local([d], [TRUE()]))
+                    asg = [Assign([V(d)], [Bin("<", V(w), Int(n))])]
+                    head = [inc] + guard + ((store + asg) if before else (asg + store))
+                    cond = V(d) if r.random() < 0.7 else EQ(V(d), TRUE())
+                else:
+                    head = [inc] + guard
+                    cond = Bin("<", V(w), Int(n))
+                st = While(cond, head + self.block(depth + 1) + ([Label(lab)] if lab else []))
             else:
-                st = Repeat([inc] + inner, Bin(">=", V(w), Int(n)))
+                inner = self.block(depth + 1)
+                if flag:
+                    # the condition is a bare local of the body (possibly captured by a closure created in the body)
+                    val = Bin(">=", V(w), Int(n))
+                    tail = ([Local([d])] + store + [Assign([V(d)], [val])]) if before else ([Local([d], [val])] + store)
+                    cond = V(d) if r.random() < 0.7 else (Not(Not(V(d))) if r.random() < 0.5 else EQ(V(d), TRUE()))
+                else:
+                    tail = []
+                    cond = Bin(">=", V(w), Int(n))
+                st = Repeat([inc] + guard + inner + tail, cond)
         self.scopes.pop()
         self.loops.pop()
         return pre + [st]
@@ -1829,7 +1976,8 @@ def families(tier):
     fams = [("closure_loops", fam_closure_loops()), ("adjust", fam_adjust(3 if big else 2)), ("varargs", fam_varargs()),
             ("control", fam_control()), ("methods", fam_methods()), ("metaops", fam_metaops(big)), ("metaindex", fam_metaindex()),
             ("fornum", fam_fornum()), ("logic", fam_logic()), ("errors", fam_errors()),
-            ("scalars", fam_scalars()), ("pressure", fam_pressure()), ("misc", fam_misc())]
+            ("scalars", fam_scalars()), ("pressure", fam_pressure()), ("misc", fam_misc()),
+            ("loop_conditions", fam_loop_conditions())]
     # the sizes follow from the grammar definitions (products of the alternatives, minus the excluded combinations)
     nat = 8
     no = len(META_OPERANDS_BIG if big else META_OPERANDS)
@@ -1843,6 +1991,7 @@ def families(tier):
         "metaindex": 18 + 12 + 8 + 2 + 24 + 1 + 3,
         "fornum": 3 * 4 * 5, "logic": 7 * 7 * 2 * 3, "errors": 26 * 8 + 6,
         "scalars": 6 * 4 * 2 * 2 + 8 * 8 + (5 * 5 * 8 - 2 * 5), "pressure": 4 * 3 - 1 + 2 * 2, "misc": 22,
+        "loop_conditions": (9 + 7) * 5 * 2 * 2,
     }
     for name, items in fams:
         if len(items) != expected[name]:
